@@ -1,8 +1,8 @@
 SPECIFICATION Spec
 CONSTANTS MaxEntries = 3
-          MaxX = 2
-          MaxSel = 1
-          SecondPair = TRUE
+          MaxX = 1
+          MaxSel = 0
+          SecondPair = FALSE
 INVARIANT ExtrapolationOK
 INVARIANT ReplaceScoped
 CHECK_DEADLOCK FALSE
